@@ -380,7 +380,11 @@ MayArt(r, a) == \/ ~Cfg.untagged
                 \/ (~Cfg.withSubj /\ ~Cfg.dangling)
                 \/ (SubjectOf(a) \notin blob[r] /\ ~Cfg.dangling)
 RootsMay(r)  == RootsMust(r) \cup {a \in ManSet(r) : IsArt(a) /\ MayArt(r, a)} \cup (Young(r) \cap ManSet(r))
-MayMan(r)    == GCFix(r, RootsMay(r))
+\* a response that lists a retained referrer is kept, and with it every referrer it lists
+GCStepMay(r, R) == GCStep(r, R) \cup {a \in ManSet(r) : IsArt(a) /\ \E b \in R : IsArt(b) /\ SubjectOf(b) = SubjectOf(a)}
+RECURSIVE GCFixMay(_, _)
+GCFixMay(r, R) == IF GCStepMay(r, R) = R THEN R ELSE GCFixMay(r, GCStepMay(r, R))
+MayMan(r)    == GCFixMay(r, RootsMay(r))
 MayBlobs(r)  == BlobsOf(r, MayMan(r)) \cup Young(r)
 
 \* one collection of repository r; the prediction used when generating keeps everything that may be kept,
